@@ -1591,7 +1591,14 @@ fn run_any_inner(prop: &str, cfg: &Value, trace: bool) -> RunOut {
         "seq" => match serde_json::from_value::<RunCfg>(cfg.clone()) {
             Ok(c) => {
                 crate::ops::set_run_modes(&c.extra);
-                run_cfg(&c, trace)
+                let mut out = run_cfg(&c, trace);
+                if c.extra.get("io_style").map(|v| v == "1").unwrap_or(false) {
+                    out.count("mode.vectored_io_runs");
+                }
+                if c.extra.get("keep_paths").map(|v| v == "1").unwrap_or(false) {
+                    out.count("mode.kept_path_values_runs");
+                }
+                out
             }
             Err(e) => RunOut { harness_error: Some(format!("bad cfg: {}", e)), ..Default::default() },
         },
